@@ -200,7 +200,7 @@ pub fn run(ctx: &Ctx) -> i32 {
          fact snapshots (taken through the public getters) differ must have different dumps; the same through `rva lint --yaml`. distinct_nontrivial = distinct values / locations / program dumps checked",
     );
     rep.assume("lists that represent sets (func_entry / func_exit) are compared as sets");
-    let per_shard = ctx.tier.pick(6, 400);
+    let per_shard = ctx.tier.pick(40, 400);
     let mut acc0 = Acc::new();
     direct_checks(&mut acc0);
     rep.acc.merge(acc0);
